@@ -44,7 +44,7 @@ LOOSE_READERS = {"parse"}
 # stdlib-ET names that only build / serialise (a convenience copy: such calls are left to et_uses, where the
 # authoritative list of Model/XmlEntry.v decides)
 ET_BUILDING = {"Element", "SubElement", "tostring", "tostringlist", "register_namespace", "iselement", "_namespace_map",
-               "QName", "VERSION", "Comment", "ProcessingInstruction", "PI", "dump", "indent"}
+               "QName", "VERSION", "Comment", "ProcessingInstruction", "PI", "dump", "indent", "ParseError"}
 OPTIONAL_CLASS = ("saml2_tophat/sigver.py", "CryptoBackendXMLSecurity")
 OPTIONAL_MODULES = ("xmlsec", "lxml")
 
